@@ -33,6 +33,8 @@ pub mod fixed_priority;
 pub mod ros2;
 pub mod supply;
 pub mod time;
+#[cfg(feature = "verif")]
+pub mod verif_hooks;
 pub mod wcet;
 
 #[cfg(test)]
